@@ -24,12 +24,35 @@ package db
 //@   modifies nothing
 //@   ensures result1 != nil ==> result0 == nil
 
+// a statement issued through a querier: counted as outside the transaction unless the querier is the open transaction
+// (assumed at the interface, A5: an Exec that returns an error changed nothing)
+//@ ghost var histCopies int
+//@ ghost var rowDeletes int
+//@ ghost var lastDeletedID Hash
+//@ interface github.com/agglayer/aggkit/db/types.Querier.Exec@db.(*AggSenderSQLStorage).moveCertificateToHistoryOrDelete (self, query, args)
+//@   modifies writesOutsideTx, stmtFail, histCopies
+//@   ensures writesOutsideTx == old(writesOutsideTx) + ite(self == lastTx && txState(lastTx) == 0, 0, 1)
+//@   ensures stmtFail == old(stmtFail) + ite(result1 == nil, 0, 1)
+//@   ensures histCopies == old(histCopies) + ite(result1 == nil, 1, 0)
+//@ interface github.com/agglayer/aggkit/db/types.Querier.Exec@db.deleteCertificate (self, query, args)
+//@   modifies writesOutsideTx, stmtFail, rowDeletes
+//@   ensures writesOutsideTx == old(writesOutsideTx) + ite(self == lastTx && txState(lastTx) == 0, 0, 1)
+//@   ensures stmtFail == old(stmtFail) + ite(result1 == nil, 0, 1)
+//@   ensures rowDeletes == old(rowDeletes) + ite(result1 == nil, 1, 0)
+
+// replacing the row of a height: with history on, the old row is copied to the history table first; then the old row is
+// deleted by its certificate id; both through the querier given (the caller's transaction); the first failure stops it
 //@ func (a *AggSenderSQLStorage) moveCertificateToHistoryOrDelete
-//@   trusted
+//@   props C13 C02
 //@   sqltext "INSERT INTO certificate_info_history SELECT * FROM certificate_info WHERE height = $1;"
-//@   modifies writesOutsideTx, stmtFail
-//@   ensures writesOutsideTx == old(writesOutsideTx) + ite(tx == lastTx && txState(lastTx) == 0, 0, 1)
-//@   ensures stmtFail == old(stmtFail) + ite(result == nil, 0, 1)
+//@   requires a != nil && a.logger != nil && tx != nil && certificate != nil
+//@   modifies writesOutsideTx, stmtFail, histCopies, rowDeletes, lastDeletedID
+//@   ensures[every-statement-through-the-querier-given] (tx == lastTx && txState(lastTx) == 0) ==> writesOutsideTx == old(writesOutsideTx)
+//@   ensures[failure-counted] stmtFail == old(stmtFail) + ite(result == nil, 0, 1)
+//@   ensures[success-means-the-old-row-is-gone-and-kept-in-the-history-when-asked] result == nil ==> rowDeletes == old(rowDeletes) + 1 && lastDeletedID == certificate.CertificateID && histCopies == old(histCopies) + ite(a.cfg.KeepCertificatesHistory, 1, 0)
+//@   ensures[nothing-deleted-before-the-copy-succeeded] (result != nil && a.cfg.KeepCertificatesHistory && histCopies == old(histCopies)) ==> rowDeletes == old(rowDeletes)
+//@   assert call:Exec recv == tx && len(arg1) == 1 && typeIs(arg1[0], uint64) && unbox(arg1[0], uint64) == certificate.Height
+//@   assert call:deleteCertificate arg0 == tx && arg1 == certificate.CertificateID
 
 // insertedRows counts the rows inserted into certificate_info, lastInsertedRow is the last one
 //@ ghost var insertedRows int
@@ -72,8 +95,14 @@ package db
 //@   sqltext "UPDATE certificate_info SET status = $1, updated_at = $2 WHERE certificate_id = $3;"
 //@ func deleteCertificate
 //@   props C02 C13
-//@   trusted
 //@   sqltext "DELETE FROM certificate_info WHERE certificate_id = $1;"
+//@   requires tx != nil
+//@   modifies writesOutsideTx, stmtFail, rowDeletes, lastDeletedID
+//@   set lastDeletedID := ite(result == nil, certificateID, old(lastDeletedID))
+//@   ensures[through-the-querier-given] (tx == lastTx && txState(lastTx) == 0) ==> writesOutsideTx == old(writesOutsideTx)
+//@   ensures[failure-counted] stmtFail == old(stmtFail) + ite(result == nil, 0, 1)
+//@   ensures[one-delete-for-that-id] rowDeletes == old(rowDeletes) + ite(result == nil, 1, 0) && (result == nil ==> lastDeletedID == certificateID)
+//@   assert call:Exec recv == tx
 
 // schema clauses the one-row-per-height assumption rests on (C02, C13; A5), pinned
 //@ filepin C02,C13 migrations/0001.sql "signed_certificate TEXT, PRIMARY KEY (height) );"
